@@ -80,7 +80,11 @@ class G:
         n = r.randint(1, 3)
         pool = [["i", "1"], ["i", "0"], ["s", "a"], ["s", "it's\n"], True, None, ["i", "7"], ["s", ""], ["leaf", "bytes", "b'ab'"]]
         consts = []
-        for c in r.sample(pool, n):
+        picked = r.sample(pool, n)
+        if True in picked and (["i", "1"] in picked or ["i", "0"] in picked):
+            # 1 == True: such a Literal cannot distinguish its own constants (LitOK side condition)
+            picked = [c for c in picked if c is not True]
+        for c in picked:
             if isinstance(c, list) and c[0] == "leaf":
                 w = ["s", S.PRINTERS["bytes"](eval(c[2]))]
             else:
